@@ -89,14 +89,31 @@ def _setup(case, ds, torch):
         cfg.update(grafting={"type": "adam", "epsilon": geps, "beta2": g2}, momentum=0.0, use_nesterov=False, betas=[b1, cfg["betas"][1]], use_decoupled_weight_decay=(tg == "adamw"))
         twin = (torch.optim.AdamW if tg == "adamw" else torch.optim.Adam)(B, lr=lr, betas=(b1, g2), eps=geps, weight_decay=wd)
     T = warm + post
+    groups = None
+    if not norm_phase and len(shapes) >= 2 and rnd.random() < 0.35:
+        cut = rnd.randint(1, len(shapes) - 1)
+        lr2 = rnd.choice([0.05, 0.007])
+        groups = [{"params": list(range(0, cut)), "overrides": {}}, {"params": list(range(cut, len(shapes))), "overrides": {"lr": lr2}}]
+        tw_groups = [{"params": B[:cut]}, {"params": B[cut:], "lr": lr2}]
+        twin = type(twin)(tw_groups, **{k: v for k, v in twin.defaults.items() if k in ("lr", "momentum", "nesterov", "weight_decay", "eps", "alpha", "betas", "dampening")})
     if tg in ("adam", "adamw"):
         pk, pres = G.rand_presence(rnd, len(shapes), T, kind=rnd.choice(["all", "never_one", "all_absent_steps"]))
     else:
         pk, pres = G.rand_presence(rnd, len(shapes), T)
     if norm_phase:
         pk, pres = "all", [[True] * len(shapes) for _ in range(T)]
-    opt = G.build_optimizer(ds, torch, cfg, A)
-    return dict(cfg=cfg, shapes=shapes, A=A, B=B, opt=opt, twin=twin, T=T, warm=warm, start=start, presence=pres, presence_kind=pk, gs=gs, dt=D, g2=g2, b1=b1, grad_kind=rnd.choice(["dense", "dense", "lowrank", "sparse"]))
+    if groups is not None and rnd.random() < 0.7:
+        # steps in which the FIRST group has no gradient at all while the second one has
+        if tg in ("adam", "adamw"):
+            pres = [[True] * len(shapes) for _ in range(T)]  # keep every parameter's update count equal to its group's step count
+        pk = "first_group_absent_steps"
+        for t in rnd.sample(range(T), max(1, T // 3)):
+            for j in groups[0]["params"]:
+                pres[t][j] = False
+            for j in groups[1]["params"]:
+                pres[t][j] = True
+    opt = G.build_optimizer(ds, torch, cfg, A, groups)
+    return dict(groups=groups, cfg=cfg, shapes=shapes, A=A, B=B, opt=opt, twin=twin, T=T, warm=warm, start=start, presence=pres, presence_kind=pk, gs=gs, dt=D, g2=g2, b1=b1, grad_kind=rnd.choice(["dense", "dense", "lowrank", "sparse"]))
 
 
 def run_case(case):
@@ -129,6 +146,12 @@ def run_case(case):
             pi = next(i for i, p in enumerate(A) if p is bi.param)
             blocks.append((pi, bi.composable_block_ids[1], tuple(v.shape), tuple(v.stride()), v.storage_offset() - bi.param.storage_offset()))
     t_group = 0
+    gidx = [0] * len(A)
+    if S["groups"]:
+        for gi, g in enumerate(S["groups"]):
+            for j in g["params"]:
+                gidx[j] = gi
+    t_groups = [0] * (len(S["groups"]) if S["groups"] else 1)
     for t in range(S["T"]):
         grads = []
         for j, p in enumerate(A):
@@ -136,15 +159,19 @@ def run_case(case):
             grads.append(g)
             A[j].grad = None if g is None else g.clone()
             B[j].grad = None if g is None else g.clone()
-        if any(g is not None for g in grads):
-            t_group += 1
+        for gi in range(len(t_groups)):
+            if any(grads[j] is not None for j in range(len(A)) if gidx[j] == gi):
+                t_groups[gi] += 1
+        t_group = max(t_groups)
         a_old = [p.detach().to(D64).clone() for p in A]
         b_old = [q.detach().to(D64).clone() for q in B]
         opt.step()
         twin.step()
         kappa = 1.0
-        if tg in ("adam", "adamw") and t_group >= 1:
-            kappa += (bc_relerr(S["b1"], t_group) + bc_relerr(S["g2"], t_group)) / 2.0**-24
+        if tg in ("adam", "adamw") and min(t_groups) >= 1:
+            kappa += max((bc_relerr(S["b1"], tt) + bc_relerr(S["g2"], tt)) / 2.0**-24 for tt in t_groups)
+        elif tg in ("adam", "adamw") and t_group >= 1:
+            kappa += (bc_relerr(S["b1"], 1) + bc_relerr(S["g2"], 1)) / 2.0**-24
         if tg == "rmsprop" and cfg["use_bias_correction"]:
             pass  # RMSprop grafting never applies a bias correction
         if t_group < S["start"]:
@@ -207,7 +234,7 @@ def run_case(case):
                         raise Violation(f"step {t_group}: update of block {key} of parameter {pi} is not parallel to the Shampoo direction (|u + s| = {float(e):.3g}, tolerance {tolc:.3g})", step=t_group, param=pi, block=key, **desc)
     nontrivial = counters["warmup_steps_compared"] >= 3 or counters["norm_blocks_compared"] >= 2
     blocked = any(G.n_blocks(s, cfg["max_preconditioner_dim"], cfg["use_merge_dims"]) > 1 for s in S["shapes"])
-    sig = [tg, case["phase"], blocked, cfg["use_merge_dims"], sorted({len(s) for s in S["shapes"]}), cfg["weight_decay"] > 0, cfg["momentum"] > 0, cfg["use_nesterov"], S["presence_kind"], cfg["param_dtype"], cfg["precond"]["kind"]]
+    sig = [bool(S["groups"]), tg, case["phase"], blocked, cfg["use_merge_dims"], sorted({len(s) for s in S["shapes"]}), cfg["weight_decay"] > 0, cfg["momentum"] > 0, cfg["use_nesterov"], S["presence_kind"], cfg["param_dtype"], cfg["precond"]["kind"]]
     return {"counters": counters, "sigs": [sig] if nontrivial else [], "sample": {"target": tg, "phase": case["phase"], "shapes": S["shapes"], "max_preconditioner_dim": cfg["max_preconditioner_dim"], "use_merge_dims": cfg["use_merge_dims"], "warmup_steps": S["warm"], "presence_kind": S["presence_kind"], "dtype": cfg["param_dtype"]}}
 
 
